@@ -11,6 +11,7 @@ Inductive hop := OArray (esz : N) | OVecPush (esz : N) | OVecReserve (esz : N) |
                | OManual | OManualReuse | OBytes
                | ORepeat (slen : N) | OPad (schars sbytes pb : N)
                | OProductSq (unit : N)       (* a = u.repeat(n) (unit bytes each); b = "b".repeat(n); r of n * n bytes *)
+               | OLiteral (cfn : N)          (* a string constant of n bytes: merge_heap (check, charge), then the function object of the input *)
                | OConcatDouble (slen : N)
                | OLoop (allocs : list (N * bool)).
 
@@ -101,7 +102,7 @@ Definition concat_step (st : res * cst) : res * cst :=
       (* maybe_collect *)
       let '(m1, g1, nx1) :=
         if (c_next c <=? heap m)%N
-        then let h := (heap m - c_garbage c)%N in (mkMem h (manual m) (maxb m), 0%N, N.max (2 * h) INITIAL_GC_THRESHOLD)
+        then let h := (heap m - c_garbage c)%N in (mkMem h (manual m) (maxb m), 0%N, N.max (GC_GROWTH_FACTOR * h) INITIAL_GC_THRESHOLD)
         else (m, c_garbage c, c_next c) in
       let size := (SZ_STRING + 2 * c_len c)%N in
       if ensure m1 size then (ROk, mkC (add_heap m1 size) (g1 + c_cur c) size nx1 (2 * c_len c))
@@ -145,6 +146,11 @@ Definition hl_run1 (cap : N) (o : hop) (n : Z) (limit used0 : N) : list Z :=
   | ORepeat sl => if n =? 1 then [0; 0; 0] else let '(r, m', t) := op_repeat cap m sl n in out r m' (host_class t)
   | OPad sc sb pb => let '(r, m', t) := op_pad cap m sc sb pb n in out r m' (host_class t)
   | OProductSq u => let '(r, m') := product_sq cap m u n in out r m' 2
+  | OLiteral cfn =>
+      match op_object m (SZ_STRING + Z.to_N n) with
+      | (ROk, m1, _) => let '(r, m2, _) := op_object m1 cfn in out r m2 2
+      | (r, m1, _) => out r m1 2
+      end
   | OConcatDouble sl => let '(r, c) := concat_gc (Z.to_N n) m sl in out r (c_mem c) 2
   | OLoop allocs => let '(r, m', _) := loop_run (Z.to_N n) cap allocs m (lit 8%N) in out r m' 2
   end.
